@@ -9,10 +9,11 @@ Property theorems about `PdeVerif.Interp` (model of `get_axis_data`, `make_singl
 `DataFieldBase.insert`, `NumbaBackend.make_inserter`).  All statements hold for every ordered field
 with floor, every number of cells, spacing, offset, data, cell volumes (an arbitrary function: every
 grid class) and every point.  `eps` is the weight-clipping constant of the code (`1e-15`): theorems
-whose statement fixes exact weights assume `eps ≤ 0` (clipping inert, i.e. exact arithmetic - with
-`eps > 0` a weight below `eps` is replaced by 0, which changes each weight by less than `eps`, see
-`clip_error` / `weights_clipped`); `exact_at_centres`, `outside_is_rejected`, `inside_is_accepted`,
-`indices_in_range`, `periodic_shift` hold for the real constant as well.
+whose statement fixes exact weights are stated here for `eps ≤ 0` (clipping inert, i.e. exact
+arithmetic); `exact_at_centres`, `outside_is_rejected`, `inside_is_accepted`, `indices_in_range`,
+`periodic_shift` hold for the real constant as they stand.  `Props/C16Eps.lean` lifts every value
+theorem of this file to the real constant (`0 ≤ eps ≤ 1/2`) with explicit error terms
+(`clipping_error`, `..2`, `..3`: at most `axes · eps · max|data|`; insertion: `axes · eps · |amount|`).
 
 Vocabulary (defined in `Lemmas/Interp.lean`): `centre ax i = lo + (i+1/2)·dx`, `upperEnd ax = lo +
 size·dx`, `shift ghost` = 1 in ghost-cell mode (indices into the padded array) else 0, `lerp t u v =
@@ -317,6 +318,98 @@ theorem periodic_seam3 (eps : K) (ghost : Bool) (fill : Option K) (ax ay az : Ax
   · intro hper hdx; unfold interp3; rw [axisData_periodic_shift eps ghost ax hper hdx]
   · intro hper hdx; unfold interp3; rw [axisData_periodic_shift eps ghost ay hper hdx]
   · intro hper hdx; unfold interp3; rw [axisData_periodic_shift eps ghost az hper hdx]
+
+/-- **periodic seam value, 2 axes**: along a periodic axis the interpolant is the bulk formula in the
+unrolled periodic extension of the data for every coordinate (the other axis is arbitrary: plain,
+periodic, strip, ghost mode, rejected) -/
+theorem periodic_seam_value2 {eps : K} (he : eps ≤ 0) (ghost cc : Bool) (fill : Option K)
+    (ax ay : Axis K) (data : Idx → K) (px py : K) :
+    (ax.periodic = true →
+      interp2 eps ghost cc fill ax ay data px py =
+        (let x := cellCoord cc ax px
+         interp1 eps ghost cc fill ay (fun c => lerp (x - ⌊x⌋)
+           (data ((⌊x⌋ % ax.size + shift ghost) :: c))
+           (data (((⌊x⌋ + 1) % ax.size + shift ghost) :: c))) py)) ∧
+    (ay.periodic = true →
+      interp2 eps ghost cc fill ax ay data px py =
+        (let y := cellCoord cc ay py
+         interp1 eps ghost cc fill ax (fun c => lerp (y - ⌊y⌋)
+           (data (c ++ [⌊y⌋ % ay.size + shift ghost]))
+           (data (c ++ [(⌊y⌋ + 1) % ay.size + shift ghost]))) px)) := by
+  constructor
+  · intro hper
+    obtain ⟨a, ha, hf⟩ := axisApply_periodic he ghost cc ax hper px
+    rw [interp2_nest ha]; simp only [hf, lerp]
+  · intro hper
+    obtain ⟨b, hb, hf⟩ := axisApply_periodic he ghost cc ay hper py
+    rw [interp2_nest' hb]; simp only [hf, lerp]
+
+/-- both axes periodic: the bilinear formula in the doubly unrolled extension, for every point -/
+theorem periodic_seam_both2 {eps : K} (he : eps ≤ 0) (ghost cc : Bool) (fill : Option K)
+    (ax ay : Axis K) (hx : ax.periodic = true) (hy : ay.periodic = true) (data : Idx → K)
+    (px py : K) :
+    interp2 eps ghost cc fill ax ay data px py =
+      (let x := cellCoord cc ax px
+       let y := cellCoord cc ay py
+       let ext : Int → Int → K := fun k l => data [k % ax.size + shift ghost, l % ay.size + shift ghost]
+       some (lerp (x - ⌊x⌋)
+         (lerp (y - ⌊y⌋) (ext ⌊x⌋ ⌊y⌋) (ext ⌊x⌋ (⌊y⌋ + 1)))
+         (lerp (y - ⌊y⌋) (ext (⌊x⌋ + 1) ⌊y⌋) (ext (⌊x⌋ + 1) (⌊y⌋ + 1))))) := by
+  rw [(periodic_seam_value2 he ghost cc fill ax ay data px py).1 hx]
+  simp only [periodic_seam he ghost cc fill ay hy, lerp]
+  congr 1; ring
+
+/-- **periodic seam value, 3 axes** -/
+theorem periodic_seam_value3 {eps : K} (he : eps ≤ 0) (ghost cc : Bool) (fill : Option K)
+    (ax ay az : Axis K) (data : Idx → K) (px py pz : K) :
+    (ax.periodic = true →
+      interp3 eps ghost cc fill ax ay az data px py pz =
+        (let x := cellCoord cc ax px
+         interp2 eps ghost cc fill ay az (fun c => lerp (x - ⌊x⌋)
+           (data ((⌊x⌋ % ax.size + shift ghost) :: c))
+           (data (((⌊x⌋ + 1) % ax.size + shift ghost) :: c))) py pz)) ∧
+    (ay.periodic = true →
+      interp3 eps ghost cc fill ax ay az data px py pz =
+        (let y := cellCoord cc ay py
+         interp2 eps ghost cc fill ax az (fun c => lerp (y - ⌊y⌋)
+           (data (c.take 1 ++ (⌊y⌋ % ay.size + shift ghost) :: c.drop 1))
+           (data (c.take 1 ++ ((⌊y⌋ + 1) % ay.size + shift ghost) :: c.drop 1))) px pz)) ∧
+    (az.periodic = true →
+      interp3 eps ghost cc fill ax ay az data px py pz =
+        (let z := cellCoord cc az pz
+         interp2 eps ghost cc fill ax ay (fun c => lerp (z - ⌊z⌋)
+           (data (c ++ [⌊z⌋ % az.size + shift ghost]))
+           (data (c ++ [(⌊z⌋ + 1) % az.size + shift ghost]))) px py)) := by
+  refine ⟨?_, ?_, ?_⟩
+  · intro hper
+    obtain ⟨a, ha, hf⟩ := axisApply_periodic he ghost cc ax hper px
+    rw [interp3_nest ha]; simp only [hf, lerp]
+  · intro hper
+    obtain ⟨b, hb, hf⟩ := axisApply_periodic he ghost cc ay hper py
+    rw [interp3_nest_y hb]; simp only [hf, lerp]
+  · intro hper
+    obtain ⟨c, hc, hf⟩ := axisApply_periodic he ghost cc az hper pz
+    rw [interp3_nest_z hc]; simp only [hf, lerp]
+
+/-- all three axes periodic: the trilinear formula in the unrolled extension, for every point -/
+theorem periodic_seam_all3 {eps : K} (he : eps ≤ 0) (ghost cc : Bool) (fill : Option K)
+    (ax ay az : Axis K) (hx : ax.periodic = true) (hy : ay.periodic = true)
+    (hz : az.periodic = true) (data : Idx → K) (px py pz : K) :
+    interp3 eps ghost cc fill ax ay az data px py pz =
+      (let x := cellCoord cc ax px
+       let y := cellCoord cc ay py
+       let z := cellCoord cc az pz
+       let s := shift ghost
+       let ext : Int → Int → Int → K :=
+         fun k l m => data [k % ax.size + s, l % ay.size + s, m % az.size + s]
+       some (lerp (x - ⌊x⌋)
+         (lerp (y - ⌊y⌋) (lerp (z - ⌊z⌋) (ext ⌊x⌋ ⌊y⌋ ⌊z⌋) (ext ⌊x⌋ ⌊y⌋ (⌊z⌋ + 1)))
+           (lerp (z - ⌊z⌋) (ext ⌊x⌋ (⌊y⌋ + 1) ⌊z⌋) (ext ⌊x⌋ (⌊y⌋ + 1) (⌊z⌋ + 1))))
+         (lerp (y - ⌊y⌋) (lerp (z - ⌊z⌋) (ext (⌊x⌋ + 1) ⌊y⌋ ⌊z⌋) (ext (⌊x⌋ + 1) ⌊y⌋ (⌊z⌋ + 1)))
+           (lerp (z - ⌊z⌋) (ext (⌊x⌋ + 1) (⌊y⌋ + 1) ⌊z⌋) (ext (⌊x⌋ + 1) (⌊y⌋ + 1) (⌊z⌋ + 1)))))) := by
+  rw [(periodic_seam_value3 he ghost cc fill ax ay az data px py pz).1 hx]
+  simp only [periodic_seam_both2 he ghost cc fill ay az hy hz, lerp]
+  congr 1; ring
 
 /-! ## outside is rejected, inside is accepted -/
 
